@@ -16,6 +16,9 @@ pub enum X {
     ReplayOld { pick: u32 },
     Idle,
     Crash { node: usize },
+    /// an undecryptable packet in a peer's name reaches the victim (it raises a who-are-you query); the victim's
+    /// application answers that query only after `answer_after_ms`
+    Unsolicited { peer: usize, answer_after_ms: u64 },
 }
 
 pub fn run_ttl(ctx: &mut Ctx) {
@@ -83,6 +86,13 @@ async fn ttl_async(ctx: &mut Ctx) {
             let pick = ctx.tape.choose(64);
             w.schedule(at + 300, Ev::Custom(X::ReplayOld { pick }));
         }
+        // just before the exchange an undecryptable packet in the peer's name arrives; the application is slow to
+        // answer the who-are-you query it raises, so the answer comes when the exchange has long set up a session.
+        // Answering a query is no use of a session.
+        if ctx.tape.choose(5) == 0 {
+            let answer_after_ms = *ctx.tape.pick(&[session_timeout_ms / 2, session_timeout_ms.saturating_sub(400), session_timeout_ms.saturating_sub(50), 1500]);
+            w.schedule(at.saturating_sub(2), Ev::Custom(X::Unsolicited { peer, answer_after_ms }));
+        }
         let gap = match ctx.tape.choose(7) {
             0 => 50,
             1 => session_timeout_ms / 2,
@@ -104,6 +114,7 @@ async fn ttl_async(ctx: &mut Ctx) {
     let mut dead_before: BTreeMap<[u8; 32], usize> = BTreeMap::new();
     let mut keys_seen = 0usize;
     let mut next_rid = 1u64;
+    let mut slow_query: BTreeMap<[u8; 32], u64> = BTreeMap::new();
     loop {
         if ctx.failed() {
             break;
@@ -167,15 +178,24 @@ async fn ttl_async(ctx: &mut Ctx) {
                     w.send_in(node, HandlerIn::Response(to, Box::new(resp)));
                 }
                 X::ReplayOld { pick } => {
-                    let cands: Vec<usize> = w.wire.iter().enumerate().filter(|(_, r)| r.from != 0 && r.dst == w.nodes[0].addr && matches!(&r.dec, Some(d) if matches!(d.kind, PacketKind::Message { .. }))).map(|(i, _)| i).collect();
+                    let cands: Vec<usize> = w.wire.iter().enumerate().filter(|(_, r)| r.from != 0 && r.dst == w.nodes[0].addr && matches!(&r.dec, Some(d) if matches!(d.kind, PacketKind::Message { .. } | PacketKind::Handshake { .. }))).map(|(i, _)| i).collect();
                     if !cands.is_empty() {
                         let wi = cands[pick as usize % cands.len()];
                         let r = w.wire[wi].clone();
-                        ctx.fault("replay_of_old_datagram");
+                        // (a replayed handshake answers no outstanding challenge: it is dropped and is no use of any session)
+                        ctx.fault(if matches!(&r.dec, Some(d) if matches!(d.kind, PacketKind::Handshake { .. })) { "replay_of_old_handshake" } else { "replay_of_old_datagram" });
                         ctx.ev(format!("t={} REPLAY of datagram #{wi} (emitted at {}ms) to the victim", now_ms(), r.t_ms));
                         refresh_on_inbound(&w, &mut last_used, &dead_before, &r.bytes, session_timeout_ms);
                         w.deliver(0, r.src, r.bytes.clone(), Origin::Mutated { wire: wi, how: "replay" });
                     }
+                }
+                X::Unsolicited { peer, answer_after_ms } => {
+                    ctx.fault("late_answer_to_who_are_you_query");
+                    let bytes = toolkit::encode_packet(7, [0x51u8; 12], PacketKind::Message { src_id: w.nodes[peer].id }, vec![0x5a; 44], &w.nodes[0].id);
+                    ctx.ev(format!("t={} undecryptable packet in the name of n{peer} at the victim (query answered after {answer_after_ms}ms)", now_ms()));
+                    slow_query.insert(w.nodes[peer].id.raw(), answer_after_ms);
+                    let src = w.nodes[peer].addr;
+                    w.deliver(0, src, bytes, Origin::Injected { tag: "undecryptable" });
                 }
                 X::Idle | X::Crash { .. } => {}
             },
@@ -197,8 +217,9 @@ async fn ttl_async(ctx: &mut Ctx) {
                 match ev {
                     HandlerOut::WhoAreYou(wref) => {
                         let enr = w.known_record(&wref.0.node_id);
-                        ctx.ev(format!("t={t} n{node} out WhoAreYou({})", short_id(&wref.0.node_id)));
-                        w.schedule(0, Ev::Custom(X::AppWhoAreYou { node, wref, enr }));
+                        let delay = if node == 0 { slow_query.remove(&wref.0.node_id.raw()).unwrap_or(0) } else { 0 };
+                        ctx.ev(format!("t={t} n{node} out WhoAreYou({}) answered in {delay}ms", short_id(&wref.0.node_id)));
+                        w.schedule(delay, Ev::Custom(X::AppWhoAreYou { node, wref, enr }));
                     }
                     HandlerOut::Request(from, req) => {
                         // the victim's application is sometimes slow: it answers around (often after) the
@@ -391,6 +412,12 @@ async fn capacity_async(ctx: &mut Ctx) {
         let (node, p) = if inbound { (peer, 0) } else { (0, peer) };
         w.schedule(at, Ev::Custom(X::Submit { node, peer: p }));
         order.push(peer);
+        // between two exchanges an old handshake datagram of some peer sometimes reaches the victim again (a late
+        // duplicate): it answers nothing and is no use of that peer's session
+        if ctx.tape.choose(4) == 0 {
+            let pick = ctx.tape.choose(64);
+            w.schedule(at + 600, Ev::Custom(X::ReplayOld { pick }));
+        }
         at += 800;
     }
     // recency order (most recent first), distinct
@@ -475,7 +502,17 @@ async fn capacity_loop(ctx: &mut Ctx, mut w: HWorld<X>, capacity: usize, probe_s
                 X::AppRespond { node, to, resp } => {
                     w.send_in(node, HandlerIn::Response(to, Box::new(resp)));
                 }
-                X::Idle | X::ReplayOld { .. } => {}
+                X::ReplayOld { pick } => {
+                    let cands: Vec<usize> = w.wire.iter().enumerate().filter(|(_, r)| r.from != 0 && r.dst == w.nodes[0].addr && matches!(&r.dec, Some(d) if matches!(d.kind, PacketKind::Handshake { .. }))).map(|(i, _)| i).collect();
+                    if !cands.is_empty() {
+                        let wi = cands[pick as usize % cands.len()];
+                        let r = w.wire[wi].clone();
+                        ctx.fault("replay_of_old_handshake");
+                        ctx.ev(format!("t={} REPLAY of handshake #{wi} (emitted at {}ms) to the victim", now_ms(), r.t_ms));
+                        w.deliver(0, r.src, r.bytes.clone(), Origin::Mutated { wire: wi, how: "replay" });
+                    }
+                }
+                X::Idle | X::Unsolicited { .. } => {}
             },
             Obs::Out { node, ev } => match ev {
                 HandlerOut::WhoAreYou(wref) => {
